@@ -25,7 +25,7 @@ FIRST = {  # result of the FIRST run of my checks against the seed, recorded whe
     "C17-8": "other property only (C16.b2)", "C18-8": "other property only (C14.e)", "C19-7": "missed", "C19-8": "missed", "C20-8": "other property only (C07.f)",
     # wave 6 (ids -9, one change per agent, 35-minute budget): first run against the checks frozen at 5e970ee
     "C01-9": "missed", "C07-9": "missed", "C14-9": "other property only (C01.d2, C02.l, C03.h, C15.h)", "C15-9": "other property only (C02.h, C08.i, C09.d, C10.m, C17.f)", "C19-9": "missed",
-    "C13-9": "see meta",
+    "C13-9": "missed",
 }
 ADDED = {"C01-2": "C01.d fresh-only cursor", "C02-2": "C09.d/C02.h owner re-arm protocol", "C04-1": "C04.b children-before-clear", "C04-2": "C04.g accessor family",
          "C05-2": "C05.e2 ring re-base", "C14-2": "C14.f unconditional owner stop", "C16-1": "C16.b2 conflating pending flag", "C16-2": "C16.h (= C17.a table)",
@@ -58,7 +58,7 @@ ADDED = {"C01-2": "C01.d fresh-only cursor", "C02-2": "C09.d/C02.h owner re-arm 
          "C15-8": "C15.m derived capture builder carries every builder field", "C17-7": "C17.i (C18.e shared into C17)", "C17-8": "C17.j (C16.b2 shared into C17)",
          "C18-8": "C18.i (C14.e shared into C18)", "C19-7": "C19.l is-a direction", "C19-8": "C19.l input matcher keeps input semantics at every depth", "C20-8": "C20.n (C07.f shared into C20)",
          "C01-9": "C01.l finalizers before rank dependencies before ranking", "C07-9": "C07.m copy_from replaces unconditionally", "C14-9": "C14.m (C01.d2 shared into C14)",
-         "C15-9": "C15.o (C09.d shared into C15)", "C19-9": "C19.m every occurrence re-checks its constraints"}
+         "C15-9": "C15.o (C09.d shared into C15)", "C19-9": "C19.m every occurrence re-checks its constraints", "C13-9": "C13.r AlternativeKey filled from the whole source identity (seed fails one in-tree Catch2 case; kept, labelled)"}
 rows = []
 for d in sorted(glob.glob("/verif/seeded/*/meta.json")):
     m = json.load(open(d))
